@@ -1073,3 +1073,25 @@ func (e *Engine) isImmutableFor(comp, key string) bool {
 	}
 	return !allowed[key]
 }
+
+// funcFieldSig finds the signature of a function-valued captured variable "Outer.var".
+func (e *Engine) funcFieldSig(key string) *types.Signature {
+	parts := strings.SplitN(key, ".", 2)
+	if len(parts) != 2 {
+		return nil
+	}
+	for _, f := range e.funcs {
+		for _, fv := range f.FreeVars {
+			p := fv.Parent()
+			for p.Parent() != nil {
+				p = p.Parent()
+			}
+			if p.Name() == parts[0] && fv.Name() == parts[1] {
+				if sig, ok := deref(fv.Type()).Underlying().(*types.Signature); ok {
+					return sig
+				}
+			}
+		}
+	}
+	return nil
+}
